@@ -72,6 +72,7 @@ import RoProofs.Ops.Basic
 import RoGen.Catalogue
 import RoGen.FaultFacts
 import RoProofs.ObsNil
+import RoProofs.ObsPartial
 namespace Ro.C07
 open Ro Ro.Fault
 
@@ -467,8 +468,16 @@ theorem nil_error_callback_unhandled_only_panics (cfg : ObsNil.Cfg) (fault : Nat
     ∀ e ∈ (ObsNil.run cfg fault script).unhandled, ∃ k p, fault k = some p ∧ e = .observer p :=
   ObsNil.unhandled_only_panics cfg fault he script
 
+/-- C07, the partial observers: whatever the one user callback does (any panic plan), the unhandled-error hook stays
+    silent — the panic is handed to the EMPTY error callback the constructor supplies (it is swallowed: the documented
+    "this observer will silent errors") — and it never escapes -/
+theorem partial_observer_unhandled_silent (k : ObsPartial.Ctor) (fault : Nat → Option Err) (script : List (Notif Int)) :
+    (ObsPartial.run k fault script).unhandled = [] :=
+  ObsPartial.unhandled_nil k fault script
+
 end Ro.C07
 
+#print axioms Ro.C07.partial_observer_unhandled_silent
 #print axioms Ro.C07.nil_error_callback_panic_unhandled
 #print axioms Ro.C07.nil_callbacks_dropped_from_script
 #print axioms Ro.C07.nil_error_callback_unhandled_only_panics
